@@ -293,7 +293,9 @@ func NewRunner(w *World, cfg Config, rep *Report) *Runner {
 	w.Reset(cfg)
 	r.Sh = NewShadow(r)
 	r.Cur = w.Snapshot(w.Ctx)
-	activeRunner = r
+	if !raceMode {
+		activeRunner = r
+	}
 	return r
 }
 
